@@ -1,5 +1,6 @@
 import HdVerif.Proofs.TilingFull
 import HdVerif.Proofs.TilingFraction
+import HdVerif.Proofs.TilingTie
 /-! # C04  Tiled images reassemble to the exact total pixel matrix
 
 Property theorems only (helper lemmas: `Proofs/TilingStd.lean`, `Proofs/Tiling.lean`, `Proofs/TilingGrid.lean`,
@@ -385,6 +386,87 @@ theorem tile_array_content {α} (z : α) (M : Img α) (R C ro co tr tc : Int) (h
 
 /-! ## Non-vacuity: a 5 × 4 matrix in 2 × 3 tiles (neither size divides), frames stored in a permuted order -/
 
+/-! ## Bridges: the hand-written glue uses exactly the expressions of the current source -/
+
+/-- **Bridge (WHERE clause, T5w).**  The model's selection is the predicate GENERATED from the f-string pieces of the query
+template (comparison operators and operands as they stand in the source today), applied to the translated offset starts. -/
+theorem bridge_where_clause (rs re cs ce th tw : Int) (r : LutRow) :
+    selected rs re cs ce th tw r =
+      (match tiledRegion rs re cs ce r.rp r.cp th tw with
+       | .ok (ros, cos, _, _, _, _) =>
+         (match tiledRegionWhere r.rp r.cp ros re cos ce rs cs with
+          | .ok b => b
+          | .error _ => false)
+       | .error _ => false) :=
+  selected_eq_where rs re cs ce th tw r
+
+/-- **Bridge (missing-frame test, T5g).**  `readRegion` is the read with the REGENERATED test (flags, organisation string,
+`v_frames * h_frames`, comparison with the found number) in place of the hand-written guard; and that test refuses iff
+neither missing-flag is set, the image is not TILED_FULL and the numbers differ. -/
+theorem bridge_missing_frame_test {α} (z : α) (lut : List LutRow) (frames : List (Img α)) (rows cols th tw : Int)
+    (chan : Option Int) (rs re cs ce : Option Int) (asIdx full am : Bool) :
+    readRegion z lut frames rows cols th tw chan rs re cs ce asIdx full am =
+      (if !(uniqueKey chan lut) then .error .runtime else
+       match stdRowColIndices rs re cs ce rows cols asIdx false with
+       | .error e => .error e
+       | .ok (r0, r1, c0, c1) =>
+         match tiledRegion r0 r1 c0 c1 0 0 th tw with
+         | .error e => .error e
+         | .ok (_, _, vf, hf, _, _) =>
+           let sel := ((chanRows chan lut).filter (selected r0 r1 c0 c1 th tw)).mergeSort lutLe
+           match missingFrameTest false am vf hf (sel.length : Int) (orgString full) with
+           | .error e => .error e
+           | .ok _ =>
+             if r1 - r0 < 0 ∨ c1 - c0 < 0 then .error .value else
+             match copyLoop frames r0 r1 c0 c1 th tw (r1 - r0) (c1 - c0) sel (fun _ _ => z) with
+             | .error e => .error e
+             | .ok out => .ok (r1 - r0, c1 - c0, out)) :=
+  readRegion_uses_missingFrameTest z lut frames rows cols th tw chan rs re cs ce asIdx full am
+
+theorem bridge_missing_frame_test_iff (amv am full : Bool) (vf hf n : Int) :
+    (missingFrameTest amv am vf hf n (orgString full) = .error .runtime ↔
+      (!(amv || am) && !full && decide (n ≠ vf * hf)) = true) ∧
+    (missingFrameTest amv am vf hf n (orgString full) ≠ .error .runtime →
+      missingFrameTest amv am vf hf n (orgString full) = .ok true) :=
+  missingFrameTest_iff amv am full vf hf n
+
+/-- **Bridge (argument forwarding, T4c).**  The emptiness scan and the tiling loop of the constructor model hand `get_tile_array`
+exactly the arguments the two calls in the source do today: (row position, column position, tile rows, tile columns), for
+both organisations. -/
+theorem bridge_tile_call_forwarding {α} [BEq α] (z : α) (R C tr tc : Int) (m : Int × Img α) (o : Int × Int) (rowPos colPos : Int) :
+    tileNonEmpty z R C tr tc m o =
+      (match nonemptyTileCall tr tc o.2 o.1 with
+       | .error e => .error e
+       | .ok (ro, co, a, b) =>
+         match getTileArray z m.2 R C ro co a b with
+         | .error e => .error e
+         | .ok t => .ok (!(imgAllZero z t tr tc))) ∧
+    (match ctorTileOffsetsSparse rowPos colPos with
+     | .ok (a, b) => ctorTileCall a b tr tc
+     | .error e => .error e) = .ok (rowPos, colPos, tr, tc) ∧
+    (match ctorTileOffsetsFull rowPos colPos with
+     | .ok (a, b) => ctorTileCall a b tr tc
+     | .error e => .error e) = .ok (rowPos, colPos, tr, tc) :=
+  ⟨tileNonEmpty_uses_call z R C tr tc m o, ctorTileCall_forwarding rowPos colPos tr tc⟩
+
+/-- one kept tile of the model's tiling loop is cut with the regenerated call -/
+theorem bridge_tiling_loop_step {α} (z : α) (M : Img α) (R C tr tc ch : Int) (co ro : Int) (offs : List (Int × Int))
+    (keep : List Bool) (base : Nat) :
+    cutTilesAux z M R C tr tc ch ((co, ro) :: offs) (true :: keep) base =
+      (match (match ctorTileOffsetsSparse ro co with
+              | .ok (a, b) => ctorTileCall a b tr tc
+              | .error e => .error e) with
+       | .error e => .error e
+       | .ok (a, b, c, d) =>
+         match getTileArray z M R C a b c d with
+         | .error e => .error e
+         | .ok t =>
+           if getTileShape R C a b c d ≠ .ok (c, d) then .error .value else
+           match cutTilesAux z M R C tr tc ch offs keep (base + 1) with
+           | .error e => .error e
+           | .ok (rows, frs) => .ok (⟨a, b, base, ch⟩ :: rows, t :: frs)) :=
+  cutTilesAux_cons_uses_call z M R C tr tc ch co ro offs keep base
+
 end HdVerif.C04
 namespace HdVerif.Examples.C04
 open HdVerif HdVerif.Gen HdVerif.Tiling HdVerif.TilingLemmas HdVerif.C04
@@ -454,5 +536,12 @@ example : ∃ out, readRegion (0 : Int) [⟨3, 1, 0, 0⟩] [fun a b => exSparseM
   refine ⟨out, h, ?_, ?_⟩
   · rw [hp 2 1 (by decide) (by decide) (by decide) (by decide)]; decide
   · rw [hp 0 0 (by decide) (by decide) (by decide) (by decide)]; decide
+
+/-- the bridges are about non-trivial values: the generated WHERE predicate separates a tile that is fetched from one that is not,
+and the generated missing-frame test refuses a sparse image with a missing frame while letting a TILED_FULL one pass -/
+example : tiledRegionWhere 3 1 1 5 0 5 2 2 = .ok true ∧ tiledRegionWhere 5 1 1 5 0 5 2 2 = .ok false := by decide
+example : missingFrameTest false false 2 2 3 "TILED_SPARSE" = .error .runtime ∧ missingFrameTest false false 2 2 3 "TILED_FULL" = .ok true ∧
+    missingFrameTest false true 2 2 3 "TILED_SPARSE" = .ok true := by decide
+example : nonemptyTileCall 2 3 5 4 = .ok (5, 4, 2, 3) := by decide
 
 end HdVerif.Examples.C04
